@@ -181,6 +181,59 @@ class Undecided(Exception):
     pass
 
 
+# --------------------------------------------------------------------------- result cache
+# A harness result is a function of (the crate sources, the overlay, this driver, the build flavour,
+# the tool version, the harness). Several properties share harnesses, so a result obtained for
+# exactly the same inputs by an earlier check is reused instead of re-running CBMC (like make).
+# The key covers every input file by content; evidence lists which results were reused.
+
+CACHE_DIR = os.path.join(HERE, ".cache")
+
+
+def tree_digest(scratch):
+    import hashlib
+    h = hashlib.sha256()
+    roots = [os.path.join(scratch, "src"), os.path.join(scratch, "Cargo.toml"), os.path.join(scratch, "Cargo.lock"), os.path.abspath(__file__)]
+    files = []
+    for r in roots:
+        if os.path.isdir(r):
+            for dp, dn, fn in os.walk(r):
+                for f in fn:
+                    if f == "dispatch_gen.rs":
+                        continue
+                    files.append(os.path.join(dp, f))
+        elif os.path.exists(r):
+            files.append(r)
+    for f in sorted(files):
+        h.update(os.path.relpath(f, scratch).encode() if f.startswith(scratch) else os.path.basename(f).encode())
+        h.update(b"\0")
+        h.update(hashlib.sha256(open(f, "rb").read()).digest())
+    h.update(b"kani-0.68.0")
+    return h.hexdigest()
+
+
+def cache_get(digest, flavour, name):
+    if os.environ.get("VERIF_NO_CACHE"):
+        return None
+    p = os.path.join(CACHE_DIR, "%s-%s-%s.json" % (digest[:32], flavour, name))
+    if os.path.exists(p):
+        try:
+            return json.load(open(p))
+        except Exception:
+            return None
+    return None
+
+
+def cache_put(digest, flavour, name, r):
+    if r.get("status") not in ("success", "failed"):
+        return
+    os.makedirs(CACHE_DIR, exist_ok=True)
+    p = os.path.join(CACHE_DIR, "%s-%s-%s.json" % (digest[:32], flavour, name))
+    d = dict(r)
+    d["cached_at"] = time.strftime("%Y-%m-%dT%H:%M:%SZ", time.gmtime())
+    json.dump(d, open(p, "w"))
+
+
 # --------------------------------------------------------------------------- running Kani
 
 def kani_env():
@@ -547,15 +600,28 @@ def check(prop, tier, keep=False, only=None):
         cmds = []
         raw_logs = {}
         undecided = []
+        digest = tree_digest(scratch)
+        reused = []
         for flavour in FLAVOURS:
-            fh = [h for h in hs if h.flavour == flavour]
+            fh_all = [h for h in hs if h.flavour == flavour]
+            if not fh_all:
+                continue
+            fh = []
+            for h in fh_all:
+                c = cache_get(digest, flavour, h.name)
+                if c is not None:
+                    results[h.name] = c
+                    reused.append(h.name)
+                else:
+                    fh.append(h)
             if not fh:
+                cmds.append("(all %d harness results of flavour %s reused from an identical-input run)" % (len(fh_all), flavour))
                 continue
             jobs = min(int(os.environ.get("VERIF_JOBS", "8")), NCPU, max(1, len(fh)))
             res, out, cmd, rc, wall = run_kani(scratch, flavour, fh, jobs)
             cmds.append(cmd)
             raw_logs[flavour] = out
-            log("[%s] kani flavour=%s harnesses=%d rc=%d wall=%.0fs" % (prop, flavour, len(fh), rc, wall))
+            log("[%s] kani flavour=%s harnesses=%d (reused %d) rc=%d wall=%.0fs" % (prop, flavour, len(fh), len(fh_all) - len(fh), rc, wall))
             if not res and rc != 0:
                 # compile error / ICE
                 tail = "\n".join(out.splitlines()[-60:])
@@ -566,14 +632,19 @@ def check(prop, tier, keep=False, only=None):
                     undecided.append("no result for harness %s (rc=%d)" % (h.name, rc))
                 else:
                     results[h.name] = res[h.name]
-            # counterexample vectors for failed contract harnesses (one at a time)
+            # counterexample vectors for failed contract harnesses (one at a time, at most three)
+            nplay = 0
             for h in fh:
                 r = results.get(h.name)
-                if r and r["status"] == "failed" and h.expect != "fail":
+                if r and r["status"] == "failed" and h.expect != "fail" and nplay < 3:
+                    nplay += 1
                     res2, out2, cmd2, rc2, wall2 = run_kani(scratch, flavour, [h], 1, playback=True)
                     if h.name in res2 and res2[h.name].get("playback") is not None:
                         r["playback"] = res2[h.name]["playback"]
                         r["raw"] = res2[h.name]["raw"]
+            for h in fh:
+                if h.name in results:
+                    cache_put(digest, flavour, h.name, results[h.name])
         lemma_results = {}
         for (f, ps, t) in lemmas:
             r = run_verus(f, scratch)
@@ -720,6 +791,8 @@ def check(prop, tier, keep=False, only=None):
                 "assume_scan": scan_assumptions(),
                 "known_findings_reported": [k["id"] for (k, _, _) in known_hits],
                 "undecided": undecided,
+                "results_reused_from_identical_input_run": reused,
+                "input_digest": digest[:32],
                 "bounded_parts": meta.get("bounded_parts", []),
                 "explanation": meta.get("explanation", ""),
                 "not_covered": meta.get("not_covered", []),
